@@ -68,6 +68,11 @@ impl Polynomial {
     }
 
     /// Checks if the given polynomial is zero.
+    #[cfg(feature = "verif")]
+    pub(crate) fn verif_untrimmed(coeffs: Vec<BlsScalar>) -> Self {
+        Self { coeffs }
+    }
+
     pub(crate) fn is_zero(&self) -> bool {
         self.coeffs.is_empty()
             || self.coeffs.iter().all(|coeff| coeff == &BlsScalar::zero())
